@@ -37,7 +37,7 @@ RULE = (
 )
 ASSUMPTIONS = [
     "depth bound 2 (quick) / 3 (thorough)",
-    "independence of values is demanded for copy, arithmetic, cast_to, full_like and slice reads incl. split (as listed by the property); for reductions, constructors, stack and import only the inputs-unchanged clause and the independence of the dimension set are checked (sum_to over all dims returns a view of its source - not covered by the statement)",
+    "independence of values is demanded for copy, arithmetic, cast_to, full_like and slice reads incl. split (as listed by the property); reductions (sum_to / sum_over / cumsum / shares) are probed in the same way since fix 27 (sum_to over all dims used to return a view of its source); for constructors, stack and import only the inputs-unchanged clause and the independence of the dimension set are checked",
     "editing a Dimension's item list in place is not an edit of the dimension SET and is not probed",
 ]
 LEVEL_TEXT = (
@@ -230,7 +230,7 @@ def apply_op(st, op, check):
             x = r[op["x"]]
             return {"neg": lambda: -x, "abs": lambda: abs(x), "absm": lambda: x.abs(), "sign": lambda: x.sign(), "copy": lambda: x.copy(), "full_like": lambda: FlodymArray.full_like(x, 2.5), "full_like_arr": lambda: FlodymArray.full_like(x, x.values)}[op["o"]]()
         if name == "reduce":
-            probe_values = False  # the property lists copy, arithmetic, cast_to, full_like and slice reads
+            probe_values = True  # reductions return arrays of their own as well (also when nothing is summed away)
             x = r[op["x"]]
             how, arg = op["how"], tuple(l for l in op["arg"] if l in x.dims.letters)
             if how == "sum_to":
